@@ -635,6 +635,29 @@ def gen_struct_cases(tier, rng):
     return out
 
 
+PRIM_EXPECT = {}     # line -> what carquet must answer (headers written by the independent encoder)
+
+
+def ref_field_header(data, last):
+    """independent reading of one field header: (type, id, consumed)"""
+    r = tr.Reader(data)
+    h = r.byte()
+    ty, delta = h & 15, h >> 4
+    fid = r.integer(16) if delta == 0 else last + delta
+    if not -32768 <= fid <= 32767:
+        raise tr.DecodeError("field id out of range")
+    return ty, fid, r.p
+
+
+def ref_list_header(data):
+    r = tr.Reader(data)
+    h = r.byte()
+    n = h >> 4
+    if n == 15:
+        n = r.varint()
+    return h & 15, n, r.p
+
+
 def prim_cases(tier, rng):
     L = []
     n = 4000 if tier == "thorough" else 500
@@ -672,9 +695,15 @@ def prim_cases(tier, rng):
                 L.append("wfield %d %s %d %s" % (lv, shex(last), ty, shex(fid)))
                 # the same header as the independent encoder writes it, short and long form
                 delta = fid - last
+                bp, bv = (1, 1) if ty == 1 else (1, 0) if ty == 2 else (0, 0)
                 if 1 <= delta <= 15:
-                    L.append("rfield %d %s %02x" % (lv, shex(last), (delta << 4) | ty))
-                L.append("rfield %d %s %02x%s" % (lv, shex(last), ty, tr.uleb(tr.zigzag(fid), rng.randrange(0, 3)).hex()))
+                    li = "rfield %d %s %02x" % (lv, shex(last), (delta << 4) | ty)
+                    L.append(li)
+                    PRIM_EXPECT[li] = "OK 1 %d %d %d %d %d 1" % (ty, fid, fid, bp, bv)
+                hx = tr.uleb(tr.zigzag(fid), rng.randrange(0, 3)).hex()
+                li = "rfield %d %s %02x%s" % (lv, shex(last), ty, hx)
+                L.append(li)
+                PRIM_EXPECT[li] = "OK 1 %d %d %d %d %d %d" % (ty, fid, fid, bp, bv, 1 + len(hx) // 2)
     for _ in range(n):
         last, fid = rng.randrange(-32768, 32768), rng.randrange(-32768, 32768)
         L.append("wfield %d %s %d %s" % (rng.choice([0, 1, 5]), shex(last), rng.randrange(0, 16), shex(fid)))
@@ -688,9 +717,15 @@ def prim_cases(tier, rng):
         if c >= 0:
             room = rng.choice([0, c, c, c + 1, max(0, c - 1)]) if c < 300 else 0
             hdr = (bytes([(c << 4) | ty]) if c < 15 else bytes([0xF0 | ty]) + tr.uleb(c))
-            L.append("rlist 0 0 %s" % (hdr + bytes(min(room, 300))).hex())
+            li = "rlist 0 0 %s" % (hdr + bytes(min(room, 300))).hex()
+            L.append(li)
+            if c < 300 and room >= c:
+                PRIM_EXPECT[li] = "OK %d %d %d" % (ty, c, len(hdr))
             hdr2 = bytes([0xF0 | ty]) + tr.uleb(c, 1 if c < (1 << 60) else 0)
-            L.append("rlist 0 0 %s" % (hdr2 + bytes(min(room, 300))).hex())
+            li = "rlist 0 0 %s" % (hdr2 + bytes(min(room, 300))).hex()
+            L.append(li)
+            if c < 300 and room >= c:
+                PRIM_EXPECT[li] = "OK %d %d %d" % (ty, c, len(hdr2))
             L.append("rmap 0 0 %s" % (tr.uleb(c) + bytes([rng.getrandbits(8)]) + bytes(min(room, 300))).hex())
     for _ in range(n // 2):
         k = rng.randrange(0, 8)
@@ -898,6 +933,32 @@ def run(tier):
                 rep.violation(f"thrift_read_varint rejects a legal varint: {a}", {"kind": "line", "case": li, "expect": "OK %x %d" % (v, r.p)})
             except tr.DecodeError:
                 pass
+        elif t[0] == "wfield" and int(t[1]) >= 1 and 1 <= int(t[3]) <= 13 and a.startswith("OK"):
+            last, fid = (-int(x[1:], 16) if x[0] == '-' else int(x, 16) for x in (t[2], t[4]))
+            # int16 wrap of `field_id - last_id` in thrift_write_field_header (fid - last <= -65521): the writer then emits a
+            # short form an independent decoder reads as last+delta > 32767.  Needs last > 32753 and id < -32753; no Parquet
+            # struct has such ids (ParquetMetaRoundtrip: ids_ok), so it is outside C13 (recorded in design.d/C13.md).
+            if fid - last > -65521:
+                try:
+                    ty, gid, n = ref_field_header(bytes.fromhex(a.split()[1]), last)
+                    if (ty, gid, n) != (int(t[3]), fid, len(a.split()[1]) // 2):
+                        rep.violation(f"thrift_write_field_header(type {t[3]}, id {fid}) after id {last}: an independent decoder reads "
+                                      f"type {ty} id {gid} from {a.split()[1]}", {"kind": "line", "case": li, "expect": "a header an independent decoder reads back"})
+                except tr.DecodeError as e:
+                    rep.violation(f"thrift_write_field_header output {a.split()[1]} is not a legal field header: {e}",
+                                  {"kind": "line", "case": li, "expect": "a legal field header"})
+        elif t[0] == "wlist" and 1 <= int(t[1]) <= 13 and t[2][0] != '-' and int(t[2], 16) < (1 << 31) and a.startswith("OK"):
+            try:
+                ty, cnt, n = ref_list_header(bytes.fromhex(a.split()[1]))
+                if (ty, cnt, n) != (int(t[1]), int(t[2], 16), len(a.split()[1]) // 2):
+                    rep.violation(f"thrift_write_list_begin(type {t[1]}, count {int(t[2], 16)}): an independent decoder reads type {ty} "
+                                  f"count {cnt} from {a.split()[1]}", {"kind": "line", "case": li, "expect": "a header an independent decoder reads back"})
+            except tr.DecodeError as e:
+                rep.violation(f"thrift_write_list_begin output {a.split()[1]} is not a legal list header: {e}",
+                              {"kind": "line", "case": li, "expect": "a legal list header"})
+        if li in PRIM_EXPECT and a != PRIM_EXPECT[li]:
+            rep.violation(f"carquet misreads a legal header written by an independent encoder: {a} want {PRIM_EXPECT[li]}",
+                          {"kind": "line", "case": li, "expect": PRIM_EXPECT[li]})
         if a != b:
             rep.tie_broken(f"model and implementation differ on a primitive: impl {a[:200]} / model {b[:200]}", li)
 
@@ -1167,6 +1228,20 @@ def replay(path):
     exp = r.get("expect")
     if exp == "no crash":
         return 0
+    if exp in ("a header an independent decoder reads back", "a legal field header", "a legal list header"):
+        t = line.split()
+        try:
+            if t[0] == "wfield":
+                last, fid = (-int(x[1:], 16) if x[0] == '-' else int(x, 16) for x in (t[2], t[4]))
+                got = ref_field_header(bytes.fromhex(out[0].split()[1]), last)
+                print("independent decoder reads (type, id, bytes):", got)
+                return 0 if got == (int(t[3]), fid, len(out[0].split()[1]) // 2) else 1
+            got = ref_list_header(bytes.fromhex(out[0].split()[1]))
+            print("independent decoder reads (type, count, bytes):", got)
+            return 0 if got == (int(t[1]), int(t[2], 16), len(out[0].split()[1]) // 2) else 1
+        except tr.DecodeError as e:
+            print("independent decoder fails:", e)
+            return 1
     if exp == "ERR":
         return 0 if out[0].startswith("ERR") else 1
     if r.get("kind") == "indep":
